@@ -30,6 +30,15 @@ type concOp struct {
 	f    func(m, other proto.Message) string
 }
 
+// scribble: the caller owns the bytes Marshal returned and goes on using them (overwrites them, appends a trailer)
+func scribble(b []byte) {
+	for i := range b {
+		b[i] ^= 0xff
+	}
+	b = append(b, 0xa5, 0x5a, 0xa5, 0x5a)
+	_ = b
+}
+
 func concOps() []concOp {
 	return []concOp{
 		{"Size", func(m, _ proto.Message) string { return fmt.Sprint(proto.Size(m)) }},
@@ -37,11 +46,15 @@ func concOps() []concOp {
 			b, err := proto.Marshal(m)
 			// map order varies: compare by canonical re-encoding
 			d, _ := SpecDecode(m.ProtoReflect().Descriptor(), b, SpecOpts{})
-			return fmt.Sprintf("%x %v", SpecEncode(Canon(d)), err)
+			res := fmt.Sprintf("%x %v", SpecEncode(Canon(d)), err)
+			scribble(b)
+			return res
 		}},
 		{"Marshal(det)", func(m, _ proto.Message) string {
 			b, err := detOpts.Marshal(m)
-			return fmt.Sprintf("%x %v", b, err)
+			res := fmt.Sprintf("%x %v", b, err)
+			scribble(b)
+			return res
 		}},
 		{"Has/Get(every field)", func(m, _ proto.Message) string {
 			r := m.ProtoReflect()
@@ -201,6 +214,17 @@ func engineConc(rep *Report) {
 				default:
 					shared = proto.Clone(BuildStruct(s.Zero, v))
 					other = BuildStruct(s.Zero, v2)
+				}
+				if round%6 == 5 && !deep {
+					// a shared message that holds nothing but unknown fields (buffer as the decoder leaves it)
+					raw := protowire.AppendVarint(protowire.AppendTag(nil, 536870000, protowire.VarintType), uint64(round)+1)
+					raw = protowire.AppendBytes(protowire.AppendTag(raw, 536870001, protowire.BytesType), []byte("nothing-but-unknown"))
+					raw = protowire.AppendVarint(protowire.AppendTag(raw, 536870000, protowire.VarintType), 7)
+					shared = newOf(s.Zero)
+					if err := proto.Unmarshal(raw, shared); err != nil {
+						return
+					}
+					rep.Count("C11", "unknown-only-shared-message-rounds", 1)
 				}
 				ops := ops
 				if deep {
